@@ -87,6 +87,24 @@ def spoil_input(*ds):
             pass
 
 
+def ordered(x):
+    """A case as it goes into a replay file.  The runner writes replay files with sorted keys; in this property
+    the insertion order of a record's keys is part of the input ("whatever the dictionary's key order"), so every
+    data dictionary whose keys are not already in sorted order is written as its item list (`__items__`, which
+    `core.unjson` turns back into a dictionary in that order).  Structural dictionaries (cases, operations) are
+    left as they are."""
+    if isinstance(x, list):
+        return [ordered(v) for v in x]
+    if isinstance(x, dict):
+        if "kind" in x or "op" in x or all(isinstance(k, str) and k.startswith("__") for k in x):
+            return {k: ordered(v) for k, v in x.items()}
+        ks = list(x)
+        if all(isinstance(k, str) for k in ks) and ks == sorted(ks):
+            return {k: ordered(v) for k, v in x.items()}
+        return {"__items__": [[k, ordered(v)] for k, v in x.items()]}
+    return x
+
+
 def raised(e):
     return {"__raised__": type(e).__name__}
 
@@ -118,7 +136,15 @@ def _snap(name, obj):
         return canon(tuple(obj))
     if name == "keys":
         return list(obj)
-    return json.loads(obj)
+    # an object in which a member name occurs twice is not a dictionary of the fields: parsers disagree on which
+    # value it holds (the marker makes it unequal to every expected object)
+    def pairs(ps):
+        d = dict(ps)
+        if len(d) != len(ps):
+            d["__repeated_member_name__"] = True
+        return d
+
+    return json.loads(obj, object_pairs_hook=pairs)
 
 
 def _change(name, obj):
@@ -170,6 +196,10 @@ def views_of(row, probes, default, plan=None):
                     obj = row.as_json
                     held.append((n, obj))
                     o["json"] = _snap(n, obj)
+                    try:
+                        o["json_text"] = bytes(obj).decode("utf-8")
+                    except Exception:
+                        pass
                 except Exception as e:
                     if json_native(o["row"]):  # orjson refuses some values (integers beyond 64 bits): not this property's business
                         o["json"] = raised(e)
@@ -219,6 +249,25 @@ def views_of(row, probes, default, plan=None):
     return out
 
 
+def last_views(df, probes, default, plan=None):
+    """The views of the row an append added (the frame's last row); of no row when the frame holds none — the
+    oracle then reports the missing row, not an IndexError of this harness."""
+    rows = df._rows
+    if not isinstance(rows, list) or not rows or not hasattr(rows[-1], "as_map"):
+        return {"views_raised": "no row was added"}
+    return views_of(rows[-1], probes, default, plan)
+
+
+def same_json(a, b):
+    """Equality of what JSON can carry: like wire.same (floats by bit pattern, True is not 1), except that the
+    members of an object have no order (a cell that is a dictionary: a serialiser may write its keys sorted)."""
+    if isinstance(a, dict) and isinstance(b, dict):
+        return set(a) == set(b) and all(same_json(a[k], b[k]) for k in a)
+    if isinstance(a, (list, tuple)) and isinstance(b, (list, tuple)):
+        return len(a) == len(b) and all(same_json(x, y) for x, y in zip(a, b))
+    return wire.same(a, b)
+
+
 def judge_reads(fields, want, out, probes, dflt):
     """One pass over the views (those that were read), judged against the row: (clause, what was wrong) or None."""
     if "views_raised" in out:
@@ -258,7 +307,7 @@ def judge_reads(fields, want, out, probes, dflt):
             return "as_json raised %s" % js["__raised__"], "json"
         # the JSON object has exactly the field names; every cell JSON can carry natively is the field's value
         # (how a non-JSON value such as bytes is rendered is the serialiser's choice, not part of the association)
-        if not isinstance(js, dict) or set(js) != set(dd) or any(json_native(dd[f]) and not wire.same(js[f], dd[f]) for f in dd):
+        if not isinstance(js, dict) or set(js) != set(dd) or any(json_native(dd[f]) and not same_json(js[f], dd[f]) for f in dd):
             return "as_json does not reproduce the field-to-value association", "json"
     return None
 
@@ -383,7 +432,7 @@ def impl_frame(case):
             df.append(entry)
             spoil_input(entry)
             out["after_append"] = [canon(tuple(r)) for r in df._rows]
-            out["append_last"] = views_of(df._rows[-1], frame_probes(out["names"]), "dflt")
+            out["append_last"] = last_views(df, frame_probes(out["names"]), "dflt")
         except Exception as e:
             out["append_raised"] = type(e).__name__
             out["after_append"] = [canon(tuple(r)) for r in df._rows]
@@ -466,8 +515,8 @@ def impl_append(case):
             return {"raised": type(e).__name__, "rows": [canon(tuple(r)) for r in df._rows]}
         try:
             return {"rows": [canon(tuple(r)) for r in df._rows], "rowcount": df.rowcount,
-                    "last": views_of(df._rows[-1], case.get("probes", frame_probes(fields)), case.get("default", "dflt"),
-                                     case.get("reads"))}
+                    "last": last_views(df, case.get("probes", frame_probes(fields)), case.get("default", "dflt"),
+                                       case.get("reads"))}
         except Exception as e:
             return {"raised": type(e).__name__, "rows": []}
 
@@ -589,7 +638,7 @@ def impl_session(case):
                         df.append(entry)
                         spoil_input(entry)
                         o = {"rows": [canon(tuple(r)) for r in df._rows], "rowcount": df.rowcount,
-                             "last": views_of(df._rows[-1], op.get("probes", []), op.get("default"), op.get("reads"))}
+                             "last": last_views(df, op.get("probes", []), op.get("default"), op.get("reads"))}
                 elif k == "row":
                     entry = mapping(op["dict"], op.get("mapping"))
                     row = Row.create_class(list(op["fields"]))(entry)
@@ -753,10 +802,364 @@ def oracle_session(case, out):
     return None
 
 
+# ----------------------------------------------------------------------------- frames bound to a schema OBJECT
+
+MUTATIONS = ("rename", "replace", "popinsert", "swap", "add", "remove", "reverse", "assign")
+NAME_READS = ("column_names", "iter")
+FRAME_READS = ("column_names", "select", "description", "columncount")
+
+
+def mutated(names, m):
+    """The column names after the caller's edit `m` of the schema object (positions modulo the number of columns;
+    on an empty column list only `add` and `assign` do anything).  `pop_column(name)` removes the FIRST column of
+    that name."""
+    names = list(names)
+    how, n = m["how"], len(names)
+    if how == "assign":
+        return list(m["names"])
+    if how == "add":
+        names.insert(m["pos"] % (n + 1), m["name"])
+        return names
+    if n == 0:
+        return names
+    p = m["pos"] % n
+    if how in ("rename", "replace"):
+        names[p] = m["name"]
+    elif how == "popinsert":
+        names.pop(names.index(names[p]))
+        names.insert(m.get("at", 0) % (len(names) + 1), m["name"])
+    elif how == "swap":
+        q = m.get("at", 0) % n
+        names[p], names[q] = names[q], names[p]
+    elif how == "remove":
+        names.pop(p)
+    elif how == "reverse":
+        names.reverse()
+    return names
+
+
+def mutate_schema(schema, m):
+    """The same edit on the real RelationSchema object, through its public surface."""
+    from orso.schema import FlatColumn
+
+    cols, how = schema.columns, m["how"]
+    n = len(cols)
+    if how == "assign":
+        schema.columns = [FlatColumn(name=x) for x in m["names"]]
+    elif how == "add":
+        cols.insert(m["pos"] % (n + 1), FlatColumn(name=m["name"]))
+    elif n == 0:
+        return
+    elif how == "rename":
+        cols[m["pos"] % n].name = m["name"]
+    elif how == "replace":
+        cols[m["pos"] % n] = FlatColumn(name=m["name"])
+    elif how == "popinsert":
+        schema.pop_column(cols[m["pos"] % n].name)
+        cols.insert(m.get("at", 0) % (len(cols) + 1), FlatColumn(name=m["name"]))
+    elif how == "swap":
+        p, q = m["pos"] % n, m.get("at", 0) % n
+        cols[p], cols[q] = cols[q], cols[p]
+    elif how == "remove":
+        cols.pop(m["pos"] % n)
+    elif how == "reverse":
+        cols.reverse()
+
+
+def impl_bound(case):
+    """Schema objects, frames bound to them, the caller editing the objects in between, dictionaries appended and
+    free-standing rows built at any point."""
+    from orso import DataFrame
+    from orso.row import Row
+    from orso.schema import FlatColumn, RelationSchema
+
+    schemas, frames, outs = [], [], []
+    for op in case["ops"]:
+        k = op["op"]
+        o = {}
+        try:
+            with warnings.catch_warnings():
+                warnings.simplefilter("ignore")
+                if k == "ctx":
+                    impl_ctx(op)
+                elif k == "schema":
+                    schemas.append(RelationSchema(name="t", columns=[FlatColumn(name=f) for f in op["fields"]]))
+                elif k in ("bound", "names", "mutate", "rowclass") and not schemas:
+                    o = {"skip": True}
+                elif k in ("append", "reread", "derive", "fnames") and not frames:
+                    o = {"skip": True}
+                elif k == "bound":
+                    rws = [tuple(r) for r in op["rows"]]
+                    frames.append(DataFrame(rows=(r for r in rws) if op.get("lazy") else rws, schema=schemas[op["schema"] % len(schemas)]))
+                    o = {"rows": [list(r) for r in op["rows"]]}  # nothing of it read yet
+                elif k == "names":
+                    s = schemas[op["schema"] % len(schemas)]
+                    o = {"names": [str(x) for x in (s.column_names if op["how"] == "column_names" else list(s))]}
+                elif k == "fnames":
+                    df = frames[op["frame"] % len(frames)]
+                    how = op["how"]
+                    df.materialize()
+                    if how == "column_names":
+                        df.column_names
+                    elif how == "columncount":
+                        df.columncount
+                    elif how == "description":
+                        df.description
+                    else:
+                        df.select([c.name for c in df.schema.columns][:1])
+                elif k == "mutate":
+                    s = schemas[op["schema"] % len(schemas)]
+                    mutate_schema(s, op)
+                    o = {"names": [c.name for c in s.columns]}
+                elif k == "rowclass":
+                    s = schemas[op["schema"] % len(schemas)]
+                    entry = mapping(op["dict"], op.get("mapping"))
+                    row = Row.create_class(s)(entry)
+                    spoil_input(entry)
+                    o = views_of(row, op["probes"], op["default"], op.get("reads"))
+                elif k == "append":
+                    df = frames[op["frame"] % len(frames)]
+                    entry = mapping(op["dict"], op.get("mapping"))
+                    try:
+                        df.append(entry)
+                    except Exception as e:
+                        if type(e).__name__ not in VALIDATION_ERRORS:
+                            raise
+                        o = {"refused": type(e).__name__, "rows": [canon(tuple(r)) for r in df._rows]}
+                    else:
+                        spoil_input(entry)
+                        o = {"rows": [canon(tuple(r)) for r in df._rows], "rowcount": df.rowcount,
+                             "last": last_views(df, op.get("probes", []), op.get("default"), op.get("reads"))}
+                elif k == "reread":
+                    df = frames[op["frame"] % len(frames)]
+                    o = {"rows": [canon(tuple(r)) for r in df], "rowcount": df.rowcount}
+                elif k == "derive":
+                    df = frames[op["frame"] % len(frames)]
+                    df.materialize()
+                    how = op["how"]
+                    nf = df.slice(0, op.get("n")) if how == "slice" else df.query(lambda r: True) if how == "query" else df + df
+                    frames.append(nf)
+                    o = {"rows": [canon(tuple(r)) for r in nf]}
+        except Exception as e:
+            o = {"op_raised": type(e).__name__}
+        outs.append(o)
+    return {"ops": outs}
+
+
+def bound_expected(ops, outs=None):
+    """What an exact reading of the property predicts, op by op: the schema's column names are what the caller
+    made them, and a dictionary is laid out by the names as they are when it is appended / the row is built.
+    Whether a record is accepted is the validation's business (C03): with `outs` the mirror follows what the
+    implementation decided, without it a record is accepted when its keys are exactly the column names."""
+    schemas, frames, exp = [], [], []
+    for i, op in enumerate(ops):
+        k = op["op"]
+        o = outs[i] if outs is not None else {}
+        e = None
+        if "op_raised" in o:
+            exp.append(None)
+            continue
+        if k == "schema":
+            schemas.append(list(op["fields"]))
+            e = {"names": list(op["fields"])}
+        elif k in ("bound", "names", "mutate", "rowclass") and schemas:
+            si = op["schema"] % len(schemas)
+            if k == "mutate":
+                schemas[si] = mutated(schemas[si], op)
+            elif k == "bound":
+                frames.append({"schema": si, "rows": [list(r) for r in op["rows"]]})
+            e = {"schema": si, "names": list(schemas[si])}
+            if k == "bound":
+                e["rows"] = [list(r) for r in op["rows"]]
+        elif k in ("append", "reread", "derive", "fnames") and frames:
+            fi = op["frame"] % len(frames)
+            f = frames[fi]
+            names = list(schemas[f["schema"]])
+            e = {"frame": fi, "schema": f["schema"], "names": names}
+            if k == "append":
+                row = [op["dict"].get(n, None) for n in names]
+                accepted = ("refused" not in o) if outs is not None else (set(op["dict"]) == set(names))
+                e.update(prev=[list(r) for r in f["rows"]], row=row, accepted=accepted)
+                if accepted:
+                    f["rows"].append(row)
+                e["rows"] = [list(r) for r in f["rows"]]
+            elif k == "reread":
+                e["rows"] = [list(r) for r in f["rows"]]
+            elif k == "derive":
+                n = op.get("n")
+                rows = ((f["rows"][:] if n is None else f["rows"][0:n]) if op["how"] == "slice" else
+                        f["rows"][:] if op["how"] == "query" else f["rows"] + f["rows"])
+                e["source"] = [list(r) for r in f["rows"]]
+                if outs is not None and "rows" in o:
+                    rows = o["rows"]  # which rows an operator selects is C03's business
+                frames.append({"schema": f["schema"], "rows": [list(r) for r in rows]})
+                e["rows"] = [list(r) for r in rows]
+        exp.append(e)
+    return exp
+
+
+NOW = "on a frame bound to a schema object, by the schema's columns as they are when the record is appended: "
+
+
+def oracle_bound(case, out):
+    ops, outs = case["ops"], out["ops"]
+    exp = bound_expected(ops, outs)
+    for op, o, e in zip(ops, outs, exp):
+        k = op["op"]
+        if k == "ctx":
+            continue
+        if "op_raised" in o:
+            if k in ("append", "rowclass", "reread"):
+                return "%s raised %s" % ({"append": "append(dict)", "rowclass": "building a row from a dictionary",
+                                          "reread": "reading a frame's rows"}[k], o["op_raised"])
+            return None  # not a dictionary operation: the rest of the session has no defined expectation
+        if e is None or o.get("skip"):
+            continue
+        if k == "mutate" and o["names"] != e["names"]:
+            raise InfraError("C02: the harness's own edit of a schema object is not the mirror's: %r vs %r" % (o["names"], e["names"]))
+        if k == "rowclass":
+            want = [op["dict"].get(f, None) for f in e["names"]]
+            c = judge_views(e["names"], want, o, op["probes"], op["default"])
+            if c:
+                return c
+        elif k == "append":
+            if not e["accepted"]:
+                # refused by the schema's validation (whether rightly is C03's business, whether the frame is left
+                # untouched C05's): here only that no row other than the record's own was stored
+                if not (wire.same(o["rows"], e["prev"]) or wire.same(o["rows"], e["prev"] + [e["row"]])):
+                    return "append(dict) stored a row that is not the record's row"
+                continue
+            if not wire.same(o["rows"], e["rows"]) or o["rowcount"] != len(e["rows"]):
+                return NOW + "append(dict) did not add exactly the record's row"
+            c = judge_views(e["names"], e["row"], o["last"], op.get("probes", []), op.get("default"))
+            if c:
+                return NOW + c
+        elif k == "reread":
+            if not wire.same(o["rows"], e["rows"]) or o["rowcount"] != len(e["rows"]):
+                return "a frame no longer holds exactly the rows it was given and the rows of the dictionaries appended to it"
+        elif k == "derive":
+            if any(not any(wire.same(r, sr) for sr in e["source"]) for r in o["rows"]):
+                return "a frame derived from a bound frame holds a row that is not a row of its source"
+    return None
+
+
+def bound_wire(ops):
+    """The session for the Lean state machine.  Frame-level reads are the route they take to the schema's names
+    (`select` iterates the schema object); reads that never touch the names are nothing to the model."""
+    w = []
+    for op in ops:
+        k = op["op"]
+        if k == "ctx":
+            w.append(["ctx"])
+        elif k == "schema":
+            w.append(["schema", op["fields"]])
+        elif k == "bound":
+            w.append(["bound", op["schema"], op["rows"]])
+        elif k == "names":
+            w.append(["read", op["schema"], op["how"]])
+        elif k == "fnames":
+            w.append(["fread", op["frame"], {"select": "iter"}.get(op["how"], "columns")])
+        elif k == "mutate":
+            how = op["how"]
+            m = (["rename", op["pos"], op["name"]] if how in ("rename", "replace") else
+                 ["popinsert", op["pos"], op.get("at", 0), op["name"]] if how == "popinsert" else
+                 ["swap", op["pos"], op.get("at", 0)] if how == "swap" else
+                 ["add", op["pos"], op["name"]] if how == "add" else
+                 ["remove", op["pos"]] if how == "remove" else
+                 ["reverse"] if how == "reverse" else ["assign", op["names"]])
+            w.append(["mutate", op["schema"], m])
+        elif k == "append":
+            w.append(["append", op["frame"], op["dict"], op.get("probes", []), op.get("default")])
+        elif k == "rowclass":
+            w.append(["rowclass", op["schema"], op["dict"], op["probes"], op["default"]])
+        elif k == "reread":
+            w.append(["reread", op["frame"]])
+        else:
+            n = op.get("n") if op["how"] == "slice" else None
+            w.append(["derive", op["frame"], op["how"], -1 if n is None else n])
+    return w
+
+
+def bound_matches(case, out, mouts):
+    """The Lean machine's per-op outputs against the implementation's."""
+    if len(mouts) != len(case["ops"]):
+        return False
+    for op, o, mo in zip(case["ops"], out["ops"], mouts):
+        k = op["op"]
+        if "op_raised" in o:
+            return k not in ("append", "rowclass", "reread", "names")
+        if o.get("skip"):
+            ok = mo == ["skip"]
+        elif k == "ctx":
+            ok = mo == ["ctx"]
+        elif k == "schema":
+            ok = mo == ["schema"]
+        elif k in ("names", "mutate"):
+            ok = mo[0] == "names" and mo[1] == o["names"]
+        elif k == "fnames":
+            ok = mo[0] == "names"
+        elif k in ("bound", "reread"):
+            ok = mo[0] == "frame" and wire.same(mo[1], o["rows"])
+        elif k == "derive":
+            ok = mo[0] == "frame"
+            if ok and not wire.same(mo[1], o["rows"]):
+                return True  # which rows an operator selects is C03's business; nothing after it is comparable
+        elif k == "append":
+            if "refused" in o:
+                ok = mo == ["refused"]
+            else:
+                last = o["last"]
+                ok = (mo[0] == "appended" and wire.same(mo[1], o["rows"]) and "row" in last and wire.same(mo[2], view(last, "as_map"))
+                      and wire.same(mo[3], view(last, "as_dict")) and wire.same(mo[4], last["gets"]))
+        else:
+            ok = (mo[0] == "row" and "row" in o and wire.same(mo[1], o["row"]) and wire.same(mo[2], view(o, "as_map"))
+                  and wire.same(mo[3], view(o, "as_dict")) and wire.same(mo[4], o["gets"]))
+        if not ok:
+            return False
+    return True
+
+
+def bound_mirror_check(ctx, case, out, mouts):
+    """Lean machine vs. the Python mirror of the specification, implementation out of the picture (records are
+    accepted when their keys are exactly the column names: the columns made here have no type and are nullable)."""
+    exp = bound_expected(case["ops"])
+    bad = None
+    for op, e, mo in zip(case["ops"], exp, mouts):
+        k = op["op"]
+        if e is None:
+            continue
+        if k in ("names", "fnames"):
+            continue  # what a read of the names returns is not this property's business (model vs. implementation only)
+        if k == "mutate":
+            if mo != ["names", e["names"]]:
+                bad = (op, mo, e)
+        elif k in ("bound", "reread", "derive"):
+            if not (mo[0] == "frame" and wire.same(mo[1], e["rows"])):
+                bad = (op, mo, e)
+        elif k == "append":
+            if e["accepted"]:
+                if not (mo[0] == "appended" and wire.same(mo[1], e["rows"]) and wire.same(mo[2], [[f, v] for f, v in zip(e["names"], e["row"])])):
+                    bad = (op, mo, e)
+            elif mo != ["refused"]:
+                bad = (op, mo, e)
+        elif k == "rowclass":
+            want = [op["dict"].get(f, None) for f in e["names"]]
+            if not (mo[0] == "row" and wire.same(mo[1], want) and wire.same(mo[2], [[f, v] for f, v in zip(e["names"], want)])):
+                bad = (op, mo, want)
+        if bad:
+            break
+    if bad is None:
+        return
+    if model_is_spec():
+        raise InfraError("C02 schema-session model differs from the specification mirror on %r: %r vs %r" % bad)
+    ctx.disagree(ordered(case), out, mouts, what="the model assembled from the changed source statements differs from the specification")
+
+
 # ----------------------------------------------------------------------------- one case, any kind
 
 IMPL = {"row": (impl_row, oracle_row), "frame": (impl_frame, oracle_frame), "append": (impl_append, oracle_append),
-        "ctx": (impl_ctx, lambda c, o: None), "session": (impl_session, oracle_session)}
+        "ctx": (impl_ctx, lambda c, o: None), "session": (impl_session, oracle_session),
+        "bound": (impl_bound, oracle_bound)}
 
 
 def run_case(case):
@@ -805,6 +1208,51 @@ def views_line(case):
     return "C02 views " + wire.line(case["fields"], case["dict"], list(rd.get("first", VIEWS)), list(rd.get("then", VIEWS)))
 
 
+def json_subset(v):
+    """Cells whose JSON text is inside the model (Model/DictJson.lean on C07's JSON model): null, booleans,
+    integers in orjson's 64-bit range, text, lists of those.  Floats (orjson's shortest rendering), bytes and
+    nested dictionaries are outside it."""
+    if v is None or isinstance(v, (bool, str)):
+        return True
+    if isinstance(v, int):
+        return -(2**63) <= v < 2**64
+    if isinstance(v, list):
+        return all(json_subset(x) for x in v)
+    return False
+
+
+def json_line(case):
+    want = [case["dict"].get(f, None) for f in case["fields"]]
+    if not all(json_subset(v) for v in want):
+        return None
+    return "C02 json " + wire.line(case["fields"], case["dict"])
+
+
+def compare_json(case, out, mo):
+    """The TEXT of as_json, byte for byte, against the model's rendering of the dictionary view."""
+    if not mo.startswith("ok "):
+        raise InfraError("model rejected the JSON text of %r: %r" % (case, mo))
+    m = wire.dec_all(mo[3:])
+    texts = [o["json_text"] for o in (out, out.get("after", {})) if isinstance(o, dict) and "json_text" in o]
+    if m[0] != "text" or not texts:
+        return None, m
+    if all(x == m[1] for x in texts):
+        return True, m
+
+    def members(text):
+        return sorted(json.loads(text, object_pairs_hook=lambda ps: {"__members__": [[k, v] for k, v in ps]})["__members__"],
+                      key=lambda kv: json.dumps(kv, sort_keys=True))
+
+    try:
+        # the order of the members, white space between the tokens and the choice among equivalent escapes are the
+        # serialiser's options, not part of the association: such a text is counted, not reported
+        if all(members(x) == members(m[1]) for x in texts):
+            return "same members", m
+    except Exception:
+        pass
+    return False, m
+
+
 def compare_views(case, out, mo):
     if not mo.startswith("ok "):
         raise InfraError("model rejected the views of %r: %r" % (case, mo))
@@ -833,6 +1281,8 @@ def model_line(case):
         return "C02 append " + wire.line(case["fields"], case["rows"], case["dict"], bool(case.get("mapping")))
     if k == "session":
         return "C02 session " + wire.line(session_wire(case["ops"]))
+    if k == "bound":
+        return "C02 bound " + wire.line(bound_wire(case["ops"]))
     return None
 
 
@@ -853,6 +1303,8 @@ def compare_model(case, out, mo):
     elif k == "append":
         ok = ("setup_raised" in out or out.get("raised") in VALIDATION_ERRORS  # the schema's validation is not in this model (C03)
               or ("raised" not in out and wire.same(m[0], out["rows"])))
+    elif k == "bound":
+        ok = bound_matches(case, out, m[0])
     else:
         ok = session_matches(case, out, m[0])
     return ok, m
@@ -908,6 +1360,8 @@ def mirror_check(ctx, case, out, m):
     """Model vs. the Python mirror of the specification, implementation out of the picture.  With the source
     statements unchanged a difference is a harness/model bug (exit 2, never a VIOLATION); with changed
     statements the model follows the code, and a difference from the specification is a correspondence finding."""
+    if case["kind"] == "bound":
+        return bound_mirror_check(ctx, case, out, m[0])
     if case["kind"] != "session":
         return
     bad = None
@@ -929,7 +1383,7 @@ def mirror_check(ctx, case, out, m):
         return
     if model_is_spec():
         raise InfraError("C02 session model differs from the specification mirror on %r: %r vs %r" % bad)
-    ctx.disagree(case, out, m, what="the model assembled from the changed source statements differs from the specification")
+    ctx.disagree(ordered(case), out, m, what="the model assembled from the changed source statements differs from the specification")
 
 
 def text_dict(d):
@@ -968,9 +1422,45 @@ def valid_op(op):
     return False
 
 
+def valid_bound_op(op):
+    k = op["op"]
+    nat = lambda x: isinstance(x, int) and not isinstance(x, bool) and x >= 0  # noqa: E731
+    if k == "ctx":
+        return op["what"] in CTX_KINDS and all(isinstance(f, str) for f in op["fields"])
+    if k == "schema":
+        return isinstance(op["fields"], list) and all(isinstance(f, str) for f in op["fields"])
+    if k == "bound":
+        return nat(op["schema"]) and isinstance(op["rows"], list) and all(isinstance(r, list) for r in op["rows"])
+    if k == "names":
+        return nat(op["schema"]) and op["how"] in NAME_READS
+    if k == "fnames":
+        return nat(op["frame"]) and op["how"] in FRAME_READS
+    if k == "mutate":
+        how = op["how"]
+        if how not in MUTATIONS or not nat(op["schema"]):
+            return False
+        if how == "assign":
+            return isinstance(op["names"], list) and all(isinstance(x, str) for x in op["names"])
+        if not nat(op["pos"]) or not nat(op.get("at", 0)):
+            return False
+        return how in ("swap", "remove", "reverse") or isinstance(op["name"], str)
+    if k == "append":
+        return (nat(op["frame"]) and text_dict(op["dict"]) and valid_reads(op) and op.get("from_row") is None
+                and all(isinstance(p, str) for p in op.get("probes", [])))
+    if k == "rowclass":
+        return nat(op["schema"]) and text_dict(op["dict"]) and valid_reads(op) and all(isinstance(p, str) for p in op["probes"])
+    if k == "reread":
+        return nat(op["frame"])
+    if k == "derive":
+        return nat(op["frame"]) and op["how"] in ("slice", "query", "add") and (op.get("n") is None or nat(op["n"]))
+    return False
+
+
 def valid_case(c):
     try:
         k = c["kind"]
+        if k == "bound":
+            return isinstance(c["ops"], list) and all(valid_bound_op(op) for op in c["ops"])
         if k == "row":
             return (all(isinstance(f, str) for f in c["fields"]) and text_dict(c["dict"]) and valid_reads(c)
                     and all(isinstance(p, str) for p in c["probes"]))
@@ -1072,6 +1562,36 @@ class Isolate:
 ISO = Isolate()
 
 
+def _joint_variants(x):
+    """Candidates that change every record of a frame together."""
+    if isinstance(x.get("dicts"), list) and x["dicts"] and all(isinstance(d, dict) for d in x["dicts"]):
+        # every cell a small number; the appended record gone; half of the columns gone from every record
+        if any(v not in (0, 1, None) for d in x["dicts"] for v in d.values()):
+            y = dict(x)
+            y["dicts"] = [{a: i for a in d} for i, d in enumerate(x["dicts"])]
+            yield y
+        ks = list(x["dicts"][0])
+        if len(ks) > 8:
+            for keep in (set(ks[: len(ks) // 2]), set(ks[len(ks) // 2:]), set(ks[: len(ks) - 1 - len(ks) // 8])):
+                y = dict(x)
+                y["dicts"] = [{a: b for a, b in d.items() if a in keep} for d in x["dicts"]]
+                if isinstance(x.get("append"), dict):
+                    y["append"] = {a: b for a, b in x["append"].items() if a in keep}
+                yield y
+        # a column together with its key in every record (and in the appended one)
+        for k in list(x["dicts"][0]):
+            y = dict(x)
+            y["dicts"] = [{a: b for a, b in d.items() if a != k} for d in x["dicts"]]
+            if isinstance(x.get("append"), dict):
+                y["append"] = {a: b for a, b in x["append"].items() if a != k}
+            yield y
+        for k in list(x["dicts"][0]):
+            if any(d.get(k) not in (0, None) for d in x["dicts"]):
+                y = dict(x)
+                y["dicts"] = [({a: (i if a == k else b) for a, b in d.items()}) for i, d in enumerate(x["dicts"])]
+                yield y
+
+
 def _drop_key_variants(x):
     """Structural candidates core.shrink does not make: a data dictionary with one key removed."""
     if isinstance(x, list):
@@ -1080,6 +1600,8 @@ def _drop_key_variants(x):
                 yield x[:i] + [c] + x[i + 1:]
     elif isinstance(x, dict):
         structural = "kind" in x or "op" in x
+        if structural:
+            yield from _joint_variants(x)
         for k in list(x):
             if structural and k not in ("dict", "dicts", "append", "ops", "cases"):
                 continue
@@ -1116,22 +1638,73 @@ def _drop_key_variants(x):
                     y["dicts"] = [dict(v), dict(v)]
                     yield y
         if structural:
-            for k in ("mapping", "iterator", "reads", "shared", "from_row", "lazy"):
+            for k in ("mapping", "iterator", "reads", "shared", "from_row", "lazy", "append"):
                 if x.get(k):
                     y = dict(x)
                     del y[k]
                     yield y
 
 
-def reduce_case(case, still, budget=250):
-    """core.shrink, then removal of dictionary keys / optional flags, to a fixpoint (bounded)."""
-    cur = shrink(case, still, budget=budget)
-    for _ in range(6):
+def _walk(x, path=()):
+    yield path, x
+    if isinstance(x, list):
+        for i, v in enumerate(x):
+            yield from _walk(v, path + (i,))
+    elif isinstance(x, dict):
+        for k, v in x.items():
+            yield from _walk(v, path + (k,))
+
+
+def _replaced(x, path, v):
+    if not path:
+        return v
+    if isinstance(x, list):
+        return x[:path[0]] + [_replaced(x[path[0]], path[1:], v)] + x[path[0] + 1:]
+    y = dict(x)
+    y[path[0]] = _replaced(x[path[0]], path[1:], v)
+    return y
+
+
+def prereduce(case, still, budget=300):
+    """First pass of the reduction, linear in the size of the case: every list (operations, cases, records, rows,
+    field lists, list-valued cells), outermost first, loses each element it can lose — one trial per element.
+    (core.shrink restarts its enumeration after every success and spends its budget before a long case is short.)"""
+    cur, tries = case, 0
+    done = set()
+    progress = True
+    while progress and tries < budget:
+        progress = False
+        for path, node in _walk(cur):
+            if not isinstance(node, list) or not node or path in done:
+                continue
+            done.add(path)
+            i = len(node) - 1
+            while i >= 0 and tries < budget:
+                cand = _replaced(cur, path, node[:i] + node[i + 1:])
+                tries += 1
+                try:
+                    ok = still(cand)
+                except Exception:
+                    ok = False
+                if ok:
+                    cur, node, progress = cand, node[:i] + node[i + 1:], True
+                i -= 1
+            if progress:
+                done = {p for p in done if p[:len(path)] != path or p == path}
+                break  # the paths below this list have moved: walk again
+    return cur
+
+
+def _keys_pass(cur, still, budget):
+    """Removal of dictionary keys / optional flags / joint candidates, to a fixpoint (bounded)."""
+    total = 0
+    for _ in range(40):
         progress = False
         tries = 0
         for c in _drop_key_variants(cur):
             tries += 1
-            if tries > budget:
+            total += 1
+            if tries > budget or total > 3 * budget:
                 break
             try:
                 if still(c):
@@ -1141,7 +1714,18 @@ def reduce_case(case, still, budget=250):
                 continue
         if not progress:
             break
+    return cur
+
+
+def reduce_case(case, still, budget=250):
+    """One linear pass over the lists, removal of dictionary keys / optional flags (records of a frame together),
+    core.shrink, the keys again (bounded)."""
+    cur = prereduce(case, still)
+    cur = _keys_pass(cur, still, budget)
+    cur = shrink(cur, still, budget=budget)
+    cur = _keys_pass(cur, still, budget)
     return shrink(cur, still, budget=60)
+
 
 HISTORY = []  # every case evaluated in this interpreter so far, in order
 
@@ -1152,7 +1736,7 @@ def report(ctx, case, clause, out):
         ctx.hit("violation-dup:" + clause)
         return
     if ctx.replaying:
-        ctx.fail(case, clause, impl=out)
+        ctx.fail(ordered(case), clause, impl=out)
         return
     deadline = time.time() + 30
 
@@ -1169,12 +1753,12 @@ def report(ctx, case, clause, out):
         ctx.note("isolation_unavailable", ISO.failed)
         still = lambda c2: valid_case(c2) and run_case(c2)[1] == clause  # noqa: E731
         c_min = reduce_case(case, still, budget=300)
-        ctx.fail(c_min, clause, impl=run_case(c_min)[0], detail="reduced in the checking interpreter (no pristine interpreter available)")
+        ctx.fail(ordered(c_min), clause, impl=run_case(c_min)[0], detail="reduced in the checking interpreter (no pristine interpreter available)")
         return
     if first[-1]["clause"] == clause:
         ctx.hit("failure:self-contained")
         c_min = reduce_case(case, lambda c2: valid_case(c2) and time.time() < deadline and fails([c2]), budget=250)
-        ctx.fail(c_min, clause, impl=last_out([c_min]), detail="fails as the first operation of a new interpreter")
+        ctx.fail(ordered(c_min), clause, impl=last_out([c_min]), detail="fails as the first operation of a new interpreter")
         return
     # history dependent: which earlier operations of this interpreter does it need?
     ctx.hit("failure:needs-earlier-operations")
@@ -1188,7 +1772,7 @@ def report(ctx, case, clause, out):
         if k >= len(hist):
             break
     if prefix is None:
-        ctx.fail(case, clause, impl=out,
+        ctx.fail(ordered(case), clause, impl=out,
                  detail="fails in the checking interpreter after %d earlier cases; not reproduced by replaying them in a new one" % len(hist))
         return
     # ddmin on the prefix
@@ -1213,7 +1797,7 @@ def report(ctx, case, clause, out):
             n = min(len(prefix), n * 2)
     seq = {"kind": "sequence", "cases": prefix + [case]}
     seq = reduce_case(seq, lambda c2: valid_case(c2) and time.time() < deadline + 20 and fails(c2["cases"]), budget=250)
-    ctx.fail(seq, clause, impl=last_out(seq["cases"]),
+    ctx.fail(ordered(seq), clause, impl=last_out(seq["cases"]),
              detail="the last operation fails only after the earlier ones of this sequence (same interpreter); alone it passes")
 
 
@@ -1233,6 +1817,8 @@ def classify(ctx, c):
         if seen:
             ctx.hit("row-after-other-feature-same-fields")
     elif k == "frame":
+        if c["dicts"] and len(c["dicts"][0]) > 16:
+            ctx.hit("frame-wide:%d" % len(c["dicts"][0]))
         if c.get("shared") and any(list(a.items()) == list(b.items()) for a, b in zip(c["dicts"], c["dicts"][1:])):
             ctx.hit("same-dictionary-object-twice")
     elif k == "ctx":
@@ -1240,6 +1826,43 @@ def classify(ctx, c):
         SEEN_CTX.setdefault(tuple(c["fields"]), set()).add(c["what"])
     elif k == "append":
         ctx.hit("append-via:" + (c.get("via") or ("schema" if c["schema_bound"] else "names")) + (":lazy" if c.get("lazy") else ""))
+    elif k == "bound":
+        ver, read_at, made_at, schema_of = [], [], [], []
+        for op in c["ops"]:
+            o = op["op"]
+            ctx.hit("bound-op:" + o + (":" + op["how"] if o in ("mutate", "names", "fnames") else ""))
+            if o == "schema":
+                ver.append(0)
+                read_at.append(None)
+            elif o in ("bound", "names", "mutate", "rowclass") and ver:
+                si = op["schema"] % len(ver)
+                if o == "mutate":
+                    ver[si] += 1
+                    if read_at[si] is not None and read_at[si] < ver[si]:
+                        ctx.hit("bound:names-read-then-schema-edited")
+                else:
+                    if o == "bound":
+                        made_at.append(ver[si])
+                        schema_of.append(si)
+                    if o == "rowclass" and ver[si]:
+                        ctx.hit("bound:row-built-after-an-edit-of-the-schema" + ("-and-an-earlier-read" if read_at[si] is not None and read_at[si] < ver[si] else ""))
+                    if read_at[si] is None or o != "rowclass":
+                        read_at[si] = ver[si] if read_at[si] is None else read_at[si]
+            elif o in ("append", "derive", "fnames") and made_at:
+                fi = op["frame"] % len(made_at)
+                si = schema_of[fi]
+                if o == "derive":
+                    made_at.append(ver[si])
+                    schema_of.append(si)
+                elif o == "append":
+                    if ver[si] == 0:
+                        ctx.hit("bound:append-schema-never-edited")
+                    elif made_at[fi] < ver[si]:
+                        ctx.hit("bound:append-to-a-frame-made-BEFORE-the-last-edit")
+                    else:
+                        ctx.hit("bound:append-to-a-frame-made-AFTER-the-last-edit"
+                                + ("-names-read-before-it" if read_at[si] is not None and read_at[si] < ver[si] else ""))
+        ctx.hit("bound-ops:%d" % min(len(c["ops"]), 14))
     elif k == "session":
         made, dict_after = {}, False
         for op in c["ops"]:
@@ -1292,6 +1915,18 @@ def observe(ctx, c, out):
             ctx.hit("append-refused-by-validation:" + (c.get("via") or "schema"))
         elif (c["schema_bound"] or c.get("via")) and set(c["dict"]) != set(c["fields"]) and "raised" not in out:
             ctx.hit("append-bound-other-keys-accepted")
+    elif k == "bound":
+        for op, o in zip(c["ops"], out.get("ops", [])):
+            if "op_raised" in o:
+                ctx.hit("bound:op-raised:%s:%s" % (op["op"], o["op_raised"]))
+            if op["op"] == "rowclass":
+                one(o, op.get("reads"))
+            elif op["op"] == "append":
+                if "refused" in o:
+                    ctx.hit("bound:append-refused-by-validation")
+                elif "last" in o:
+                    ctx.hit("bound:append-accepted")
+                    one(o.get("last"), op.get("reads"))
     elif k == "session":
         for op, o in zip(c["ops"], out.get("ops", [])):
             if op["op"] == "row":
@@ -1311,6 +1946,9 @@ def evaluate(ctx, cases):
     mouts = dict(zip([i for i, _ in lines], ctx.model.batch([l for _, l in lines])))
     vl = [i for i, c in enumerate(cases) if c["kind"] == "row"]
     vouts = dict(zip(vl, ctx.model.batch([views_line(cases[i]) for i in vl]))) if vl else {}
+    jl = [(i, json_line(cases[i])) for i in vl]
+    jl = [(i, l) for i, l in jl if l is not None]
+    jouts = dict(zip([i for i, _ in jl], ctx.model.batch([l for _, l in jl]))) if jl else {}
     for i, c in enumerate(cases):
         out, clause = run_case(c)
         nontrivial = bool(c.get("fields") or c.get("dicts") or c.get("ops") or c.get("cases"))
@@ -1326,11 +1964,17 @@ def evaluate(ctx, cases):
             ok, m = compare_model(c, out, mouts[i])
             mirror_check(ctx, c, out, m)
             if not ok:
-                ctx.disagree(c, out, m)
+                ctx.disagree(ordered(c), out, m)
         if i in vouts:
             ok, m = compare_views(c, out, vouts[i])
             if not ok:
-                ctx.disagree(c, out, m, what="the objects the views hand out: model and implementation differ")
+                ctx.disagree(ordered(c), out, m, what="the objects the views hand out: model and implementation differ")
+        if i in jouts:
+            ok, m = compare_json(c, out, jouts[i])
+            ctx.hit({None: "json-text-not-compared", True: "json-text:identical-to-the-model's", False: "json-text:differs",
+                     "same members": "json-text:same-members-other-layout"}[ok])
+            if ok is False:
+                ctx.disagree(ordered(c), out, m, what="the text of as_json: model and implementation differ")
 
 
 def evaluate_cold(ctx, cases):
@@ -1348,7 +1992,7 @@ def evaluate_cold(ctx, cases):
                 continue
             c_min = reduce_case(c, lambda c2: valid_case(c2) and (ISO.run([c2]) or [{"clause": None}])[-1]["clause"] == clause, budget=200)
             rr = ISO.run([c_min])
-            ctx.fail(c_min, clause, impl=rr[-1]["out"] if rr else None, detail="fails as the first operation of a new interpreter")
+            ctx.fail(ordered(c_min), clause, impl=rr[-1]["out"] if rr else None, detail="fails as the first operation of a new interpreter")
 
 
 # ----------------------------------------------------------------------------- generators
@@ -1409,6 +2053,10 @@ def gen_row_case(rng):
 def gen_frame_case(rng):
     n = rng.choice([0, 1, 1, 2, 3, 4, 6])
     first_keys = rng.sample(NAMES, rng.randint(0, 4)) if rng.random() < 0.6 else rng.sample(SMALL, rng.randint(0, 4))
+    if rng.random() < 0.015:
+        first_keys = ["f%d" % i for i in range(rng.choice([17, 64, 255, 256, 257, 300]))]  # wide frames
+        rng.shuffle(first_keys)
+        n = min(n, 2)
     dicts = []
     for i in range(n):
         if i == 0:
@@ -1558,6 +2206,152 @@ def gen_session_case(rng):
     return {"kind": "session", "ops": ops}
 
 
+def bound_state(ops):
+    """(column names of every schema object, schema index of every frame, names each schema ever had) after `ops`."""
+    schemas, frames, former = [], [], []
+    for op in ops:
+        k = op["op"]
+        if k == "schema":
+            schemas.append(list(op["fields"]))
+            former.append(list(op["fields"]))
+        elif k in ("bound", "mutate") and schemas:
+            si = op["schema"] % len(schemas)
+            if k == "mutate":
+                schemas[si] = mutated(schemas[si], op)
+                former[si] += [x for x in schemas[si] if x not in former[si]]
+            else:
+                frames.append(si)
+        elif k == "derive" and frames:
+            frames.append(frames[op["frame"] % len(frames)])
+    return schemas, frames, former
+
+
+def gen_mutation(rng, pool, si, names):
+    how = rng.choice(["rename", "rename", "replace", "replace", "popinsert", "popinsert", "swap", "add", "remove", "reverse", "assign"])
+    m = {"op": "mutate", "schema": si, "how": how}
+    if how == "assign":
+        k = rng.random()
+        m["names"] = (rng.sample(pool, min(len(names), len(pool))) if k < 0.5 else  # as many columns, other names
+                      rng.sample(list(names), len(names)) if k < 0.7 else rng.sample(pool, rng.randint(0, min(3, len(pool)))))
+        return m
+    m["pos"] = rng.randint(0, 3)
+    if how in ("swap", "popinsert"):
+        m["at"] = rng.randint(0, 3)
+    if how in ("rename", "replace", "popinsert", "add"):
+        m["name"] = rng.choice(pool)
+    return m
+
+
+def gen_bound_case(rng):
+    """One or two schema objects; frames made on them, names read in every way, the objects edited, dictionaries
+    appended to frames made before and after the edits, free-standing rows built — in any order."""
+    pool = SMALL if rng.random() < 0.6 else NAMES
+    ops = [{"op": "schema", "fields": rng.sample(pool, rng.randint(0, min(3, len(pool))))}]
+    for _ in range(rng.choice([3, 4, 6, 8, 12])):
+        schemas, frames, former = bound_state(ops)
+        si = rng.randrange(len(schemas))
+        names = schemas[si]
+        r = rng.random()
+        needs_frame = 0.30 <= r < 0.35 or 0.55 <= r < 0.80 or 0.90 <= r < 0.98
+        if r < 0.05:
+            ops.append({"op": "schema", "fields": rng.sample(pool, rng.randint(0, min(3, len(pool))))})
+        elif r < 0.20 or (needs_frame and not frames):
+            op = {"op": "bound", "schema": si, "rows": [[gen_pyval(rng, 1) for _ in names] for _ in range(rng.choice([0, 0, 1, 2]))]}
+            if rng.random() < 0.25:
+                op["lazy"] = True
+            ops.append(op)
+        elif r < 0.30:
+            ops.append({"op": "names", "schema": si, "how": rng.choice(NAME_READS)})
+        elif r < 0.35:
+            ops.append({"op": "fnames", "frame": rng.randint(0, 5), "how": rng.choice(FRAME_READS)})
+        elif r < 0.55:
+            ops.append(gen_mutation(rng, pool, si, names))
+        elif r < 0.80:
+            fi = rng.randint(0, 5)
+            fs = frames[fi % len(frames)]
+            cur = schemas[fs]
+            keys = list(dict.fromkeys(cur))
+            rng.shuffle(keys)
+            d = {k: gen_pyval(rng, 2) for k in keys}
+            w = rng.random()
+            if w < 0.08 and d:
+                d.pop(rng.choice(list(d)))  # a record the validation refuses: a field missing …
+            elif w < 0.16:
+                d[rng.choice([n for n in NAMES if n not in d])] = gen_pyval(rng, 1)  # … a key too many …
+            elif w < 0.24:
+                d = {k: gen_pyval(rng, 1) for k in former[fs][: len(cur)]}  # … the names the schema used to have
+            gone = [x for x in former[fs] if x not in cur]
+            op = {"op": "append", "frame": fi, "dict": d, "probes": list(cur[:2]) + gone[:1] + ["absent"],
+                  "default": rng.choice([None, 0, "dflt"])}
+            m = gen_mapping(rng)
+            if m and rng.random() < 0.5:
+                op["mapping"] = m
+            rd = gen_reads(rng)
+            if rd:
+                op["reads"] = rd
+            ops.append(op)
+        elif r < 0.90:
+            gone = [x for x in former[si] if x not in names]
+            op = {"op": "rowclass", "schema": si, "dict": gen_dict(rng, names + gone[:1]),
+                  "probes": list(dict.fromkeys(names))[:3] + gone[:1] + ["absent"], "default": rng.choice([None, 0, "dflt"])}
+            rd = gen_reads(rng)
+            if rd:
+                op["reads"] = rd
+            ops.append(op)
+        elif r < 0.93:
+            ops.append({"op": "reread", "frame": rng.randint(0, 5)})
+        elif r < 0.98:
+            how = rng.choice(["slice", "slice", "query", "add"])
+            op = {"op": "derive", "frame": rng.randint(0, 5), "how": how}
+            if how == "slice" and rng.random() < 0.6:
+                op["n"] = rng.randint(0, 3)
+            ops.append(op)
+        else:
+            ops.append({"op": "ctx", "what": rng.choice(CTX_KINDS), "fields": list(names)})
+    return {"kind": "bound", "ops": ops}
+
+
+def exhaustive_bound():
+    """One schema object with columns a, b and a frame on it; then every way of reading its names (or none) x every
+    edit of the object (rename, replace, pop + insert, swap, reverse, add, remove, a new column list) x every way a
+    dictionary meets it afterwards (a free-standing row, a frame made now, the frame made before, a frame derived
+    from that one), the dictionary's keys in the reverse of the column order."""
+    readers = [None, {"op": "names", "schema": 0, "how": "column_names"}, {"op": "names", "schema": 0, "how": "iter"},
+               {"op": "rowclass", "schema": 0, "dict": {"b": 1, "a": 2}, "probes": ["a"], "default": None},
+               {"op": "bound", "schema": 0, "rows": []}, {"op": "fnames", "frame": 0, "how": "select"},
+               {"op": "fnames", "frame": 0, "how": "column_names"}, {"op": "derive", "frame": 0, "how": "query"},
+               {"op": "append", "frame": 0, "dict": {"b": 1, "a": 2}, "probes": ["a"], "default": None}]
+    edits = [{"how": "rename", "pos": 0, "name": "c"}, {"how": "rename", "pos": 1, "name": "c"}, {"how": "rename", "pos": 0, "name": "b"},
+             {"how": "replace", "pos": 0, "name": "c"}, {"how": "replace", "pos": 1, "name": "a"},
+             {"how": "popinsert", "pos": 0, "at": 0, "name": "c"}, {"how": "popinsert", "pos": 0, "at": 1, "name": "c"},
+             {"how": "popinsert", "pos": 1, "at": 0, "name": "c"}, {"how": "swap", "pos": 0, "at": 1}, {"how": "reverse", "pos": 0},
+             {"how": "add", "pos": 0, "name": "c"}, {"how": "add", "pos": 2, "name": "c"}, {"how": "remove", "pos": 0},
+             {"how": "remove", "pos": 1}, {"how": "assign", "names": ["b", "a"]}, {"how": "assign", "names": ["c", "d"]},
+             {"how": "assign", "names": ["a"]}]
+    for rd in readers:
+        for ed in edits:
+            m = dict(ed, op="mutate", schema=0)
+            after = mutated(["a", "b"], m)
+            d = {n: i for i, n in enumerate(reversed(list(dict.fromkeys(after))))}
+            probes = ["a", "b", "c", "q"]
+            for target in ("rowclass", "new", "old", "derived"):
+                ops = [{"op": "schema", "fields": ["a", "b"]}, {"op": "bound", "schema": 0, "rows": [[1, 2]]}]
+                if rd is not None:
+                    ops.append(dict(rd))
+                ops.append(m)
+                if target == "rowclass":
+                    ops.append({"op": "rowclass", "schema": 0, "dict": d, "probes": probes, "default": "dflt"})
+                else:
+                    if target == "new":
+                        ops.append({"op": "bound", "schema": 0, "rows": []})
+                    elif target == "derived":
+                        ops.append({"op": "derive", "frame": 0, "how": "slice", "n": 1})
+                    fi = 0 if target == "old" else len([o for o in ops if o["op"] in ("bound", "derive")]) - 1
+                    ops.append({"op": "append", "frame": fi, "dict": d, "probes": probes, "default": "dflt"})
+                    ops.append({"op": "reread", "frame": fi})
+                yield {"kind": "bound", "ops": ops}
+
+
 def exhaustive_small():
     """All field lists of length <= 3 over {a,b,c} (duplicates included) x all dictionaries over subsets of
     {a,b,c,z} in two key orders."""
@@ -1604,14 +2398,16 @@ def exhaustive_sessions():
 
 def gen_any(rng):
     r = rng.random()
-    if r < 0.40:
+    if r < 0.38:
         return gen_row_case(rng)
-    if r < 0.58:
+    if r < 0.55:
         return gen_frame_case(rng)
-    if r < 0.72:
+    if r < 0.68:
         return gen_append_case(rng)
-    if r < 0.84:
+    if r < 0.78:
         return gen_ctx_case(rng)
+    if r < 0.86:
+        return gen_bound_case(rng)
     return gen_session_case(rng)
 
 
@@ -1633,6 +2429,11 @@ def run(ctx):
             evaluate(ctx, cases[i: i + 4000])
         sess = list(exhaustive_sessions())
         evaluate(ctx, sess)
+        bnd = list(exhaustive_bound())
+        evaluate(ctx, bnd)
+        ctx.note("exhaustive_bound", "%d sessions on one schema object: every way of reading its names (or none) x every edit of the "
+                 "object x every way a dictionary meets it afterwards (free-standing row, frame made after, frame made before, frame "
+                 "derived from that one)" % len(bnd))
         rds = list(exhaustive_reads())
         evaluate(ctx, rds)
         ctx.note("exhaustive_reads", "%d rows: every subset of the %d views read before the caller changes every changeable object "
